@@ -7,6 +7,7 @@
 //! Exit status: 0 the property held on everything explored (known findings
 //! included), 1 at least one unlisted violation, 2 harness or usage error.
 
+mod c07;
 mod c09;
 mod c13;
 mod c16;
@@ -141,6 +142,7 @@ fn main() {
         write_evidence,
     };
     let code = match prop.as_str() {
+        "C07" => dispatch(&c07::C07, &opts, replay_file),
         "C09" => dispatch(&c09::C09, &opts, replay_file),
         "C13" => dispatch(&c13::C13, &opts, replay_file),
         "C16" => dispatch(&c16::C16, &opts, replay_file),
